@@ -9,9 +9,9 @@ AUDIT_IMPORTS = ["H5V.Props.C09"]
 THEOREMS = ["H5V.Props.C09." + t for t in [
     "C09_only_the_reader_counts", "C09_fold_counts_once", "C09_crlf_counts_once", "C09_crlf_split",
     "C09_eat_prologue", "C09_bav_counts", "C09_step_conserves", "C09_invariant_initial", "C09_line_at_any_step",
-    "C09_line_after_input", "C09_brk_is_lf_count"]] + ["H5V.Props.C03.C03_chunk_independence",
+    "C09_line_after_input", "C09_eof_line", "C09_eof_line_empty", "C09_brk_is_lf_count"]] + ["H5V.Props.C03.C03_chunk_independence",
     "H5V.Model.HtmlTok.step_lines", "H5V.Model.HtmlTok.crStep_phi", "H5V.Model.HtmlTok.eat_phi",
-    "H5V.Model.HtmlTok.lookup_no_break"]
+    "H5V.Model.HtmlTok.lookup_no_break", "H5V.Model.HtmlTok.finish_line", "H5V.Model.HtmlTok.crEof_lines"]
 AUDIT_IMPORTS = ["H5V.Props.C09", "H5V.Props.C03"]
 TRUSTED = [
     "Lean 4 kernel; axioms ⊆ {propext, Classical.choice, Quot.sound} (audited per run)",
@@ -21,8 +21,8 @@ TRUSTED = [
     "line of their last piece)",
 ]
 ASSUMPTIONS = [
-    "C09_eof_partial: the counting invariant is proved for every step of every feed (any chunking, pauses included); it is "
-    "not restated across Tokenizer::end (EOF transitions never touch the line; the EOF-line oracle decides it on the code)",
+    "the theorems are about the model of tokenizer/mod.rs + char_ref/mod.rs (all of run/feed/end); the byte-level SIMD newline "
+    "popcount is modelled as one bump per LF of a run",
     "the per-token reading of the theorem: tokens are stamped with current_line by `emit`, transitions never change it, so a "
     "token's line is the value the invariant fixes at that step",
     "the tree builder forwards the number unchanged (set_current_line) — checked by the tree-builder engine, not here",
@@ -35,7 +35,7 @@ RULE = ("line-break triples (LF, CR, CRLF and runs of them) are placed in every 
         "[1+breaks(s[:i]), 1+breaks(s[:i+1])]; (3) every chunking gives the same lines (with C03). non-trivial = input "
         "contains a line break; distinct = distinct (case, output)")
 EXPLANATION = ("end-to-end counting invariant proved for the model (every step conserves line + breaks ahead; line = 1 + breaks "
-               "of everything fed at every suspension, any chunking) + prefix/EOF oracles on the real code + correspondence on every line number")
+               "of everything fed at every suspension, any chunking; Tokenizer::end never moves the line, so the EOF token carries 1 + breaks(input)) + prefix/EOF oracles on the real code + correspondence on every line number")
 
 BR = ["\n", "\r", "\r\n", "\n\n", "\r\r", "\r\n\r\n", "\n\r", "\r\n\n"]
 DOCS = [
